@@ -339,8 +339,32 @@ Fixpoint foreach_loop (fuel : nat) (f : nat -> Z -> option Z) (k : nat) (i : it)
 Definition foreach (fuel : nat) (f : nat -> Z -> option Z) (i : it) : option (list Z * option Z) :=
   if is_nil i then Some ([], None) else foreach_loop fuel f 0%nat i.
 
+(* the same loop, also answering WHERE the iterator stands when ForEach returns: after an error, on the element whose
+   callback failed (no Next() was asked of it) *)
+Fixpoint foreach_loop_st (fuel : nat) (f : nat -> Z -> option Z) (k : nat) (i : it) : option (list Z * option Z * it) :=
+  match fuel with O => None | S n =>
+  let v := value i in
+  match f k v with
+  | Some err => Some ([v], Some err, i)
+  | None =>
+      match next n i with
+      | None => None
+      | Some (false, i') => Some ([v], None, i')
+      | Some (true, i') =>
+          match foreach_loop_st n f (S k) i' with
+          | None => None
+          | Some (vs, o, j) => Some (v :: vs, o, j)
+          end
+      end
+  end end.
+
 (* build at top level (no enclosing join function: x = 0), then drain / ForEach *)
 Definition run (fuel : nat) (t : e) : option (list Z) :=
   match build fuel 0 t with Some i => drain fuel i | None => None end.
 Definition run_foreach (fuel : nat) (f : nat -> Z -> option Z) (t : e) : option (list Z * option Z) :=
   match build fuel 0 t with Some i => foreach fuel f i | None => None end.
+Definition run_foreach_st (fuel : nat) (f : nat -> Z -> option Z) (t : e) : option (list Z * option Z * it) :=
+  match build fuel 0 t with
+  | Some i => if is_nil i then Some ([], None, i) else foreach_loop_st fuel f 0%nat i
+  | None => None
+  end.
